@@ -218,7 +218,7 @@ func (g *c02) derEncoders() {
 		return b
 	}
 	lens := []int{0, 1, 7, 8, 9, 15, 16, 17, 63, 64, 65, 127, 128, 129, 255, 256, 257, 511, 512, 1016, 1023, 1024, 1025, 2047, 2048}
-	exps := []int64{0, 1, 3, 127, 128, 255, 256, 65537, 1<<31 - 1, 1 << 31, 1<<32 + 1, 1<<47 - 1, 1<<54 + 1, 1<<55 - 1}
+	exps := []int64{0, 1, 3, 127, 128, 255, 256, 65537, 1<<31 - 1, 1 << 31, 1<<32 + 1, 1<<47 - 1, 1<<54 + 1, 1<<55 - 1, 1 << 55, 1<<56 - 1, 1 << 56, 1 << 62, 1<<63 - 1}
 	pick := func(i, form int) *big.Int {
 		b := lens[i%len(lens)]
 		if b == 0 {
